@@ -129,8 +129,10 @@ PROPERTIES = {
                       'produced by the dropped prefix; the behaviour of those functions is C03'],
         assumptions=['PARTIAL FUNCTION: only the tail of CodeGenerator.generate_code after the last assignment of unpack_code is under contract (cut mechanically '
                      'on every run); the prefix that builds pack_code / unpack_code / import_code is dropped and replaced by the syntactic prefix-shape obligations',
-                     'HonestCache: every file and cached bytecode under __pkts__ was written by an earlier completed run of this function (for any declaration); '
-                     'torn or concurrently modified files are the subject of C16',
+                     'HonestCache: every file and cached bytecode under __pkts__ was written by an earlier completed run of this function (for any declaration) '
+                     'or is blank (imports, defines none of cookie / pack_impl / unpack_impl: an empty file, a module that carries no cookie); every module object '
+                     'already in sys.modules satisfies NSInv (its cookie, if any, is the cookie of the code its functions were generated from) - both are inductive '
+                     'invariants (postconditions); torn or concurrently modified files are the subject of C16',
                      'the pack_impl / unpack_impl attributes of a packet class are plain functions',
                      'the two generated code strings are self-delimiting (the hash of their concatenation determines both)',
                      'file-system operations succeed (writable cache directory); other processes running concurrently are C16'],
